@@ -528,6 +528,22 @@ def run_pred(c):
                      ("is_collinear(p,p,q,r)", lambda: is_collinear(p, p, q, r_), lambda: is_collinear(p, Point(p.array.copy()), q, r_)),
                      ("is_concurrent(l,l,m)", lambda: is_concurrent(l, l, m), lambda: is_concurrent(l, G.Line(l.array.copy()), m)),
                      ("is_cocircular(p,p,q,r)", lambda: is_cocircular(p, p, q, r_), lambda: is_cocircular(p, Point(p.array.copy()), q, r_))]
+        if not d3:
+            # three points that are not collinear (three lines that are not concurrent) stay so when one of them is given twice, in whichever
+            # two of the four positions (by another representative, or as the same object)
+            from itertools import combinations as _comb
+
+            tri_lines = [G.Line(p, q), G.Line(q, r_), G.Line(r_, p)]
+            for i, j in _comb(range(4), 2):
+                for what, objs, fn in (("is_collinear", [p, q, r_], is_collinear), ("is_concurrent", tri_lines, is_concurrent)):
+                    rest = iter([objs[1], objs[2]])
+                    dup = objs[0] if v[14] % 2 else type(objs[0])(np.asarray(objs[0].array) * -2.0)
+                    args = [objs[0] if k == i else dup if k == j else next(rest) for k in range(4)]
+                    r0, f0 = call(f"same_object:{what}:one-of-three-given-twice", fn, *args)
+                    if f0:
+                        ck.add(f0)
+                    else:
+                        ck.check(not bool(np.all(r0)), f"same_object:{what}:three-independent-objects-one-given-twice:positions{i}{j}", "")
         for name, aliased, twin in calls:
             r1, f1 = call(f"same_object:{name}", aliased)
             r2, f2 = call(f"same_object:{name}:twin", twin)
